@@ -220,7 +220,8 @@ type Atom uint64
 // NewAtom interns the given string and returns an Atom.
 func NewAtom(name string) Atom {
 	// A one-char atom is just a rune.
-	if r, n := utf8.DecodeLastRuneInString(name); r != utf8.RuneError && n == len(name) {
+	// U+FFFD itself decodes to utf8.RuneError, too, but it's 3 bytes long while an invalid encoding counts as 1.
+	if r, n := utf8.DecodeLastRuneInString(name); (r != utf8.RuneError || n > 1) && n == len(name) {
 		return Atom(r)
 	}
 
